@@ -365,7 +365,7 @@ func (a AttemptPlan) J() M {
 	m := M{"pacing": a.Pacing, "end": a.End, "connfault": orNone(a.ConnFault), "handlerErrAt": a.HandlerErrAt,
 		"mapperFault": orNone(a.MapperFault), "handlerErrKind": orNone(a.HandlerErrKind), "cancelAtTx": a.CancelAtTx, "cancelAtPkt": a.CancelAtPkt,
 		"handlerBlock": a.HandlerBlock, "releaseDelayMs": a.ReleaseDelayMs, "scribble": a.Scribble, "dead": a.Dead, "cancelAfterReturn": a.CancelAfterReturn,
-		"logDelayMs": a.LogDelayMs, "skipError": a.SkipError, "hookTrace": a.HookTrace, "hookFuzz": a.HookFuzz != 0, "scripted": a.Script != nil, "leakFirst": a.LeakFirst, "mapperCancels": a.MapperCancels}
+		"logDelayMs": a.LogDelayMs, "skipError": a.SkipError, "hookTrace": a.HookTrace, "hookFuzz": a.HookFuzz != 0, "scripted": a.Script != nil, "leakFirst": a.LeakFirst, "mapperCancels": a.MapperCancels, "script": scriptJ(a.Script)}
 	if a.Fault != nil {
 		m["fault"] = M{"kind": a.Fault.Kind, "at": a.Fault.At, "code": int(a.Fault.Code), "msg": B(a.Fault.Msg)}
 	} else {
@@ -525,6 +525,15 @@ type runState struct {
 	abandoned bool // a Stream call never returned: the streamer object cannot be used any more
 	// where the harness believes the streamer stands (only used to describe injected faults; set from the scenario start)
 	streamerPosGuess Pos
+}
+
+// scriptJ renders a script as a list of "Action" / "Action:parameter" strings.
+func scriptJ(steps [][]string) []string {
+	out := []string{}
+	for _, st := range steps {
+		out = append(out, strings.Join(st, ":"))
+	}
+	return out
 }
 
 func errJ(err error) M {
